@@ -62,7 +62,8 @@ def run_case(case):
     # representable, so these are class A cases in which any end-of-interval logic that compares times relative to |t|
     # instead of relative to dt shows up as forward and backward passes taking different steps
     if kind == "dyadic" and rng.random() < 0.3:
-        t0, dt = rng.choice([(1024.0, 2.0 ** -7), (-2048.0, 2.0 ** -6), (64.0, 2.0 ** -11), (4096.0, 2.0 ** -5)])
+        t0, dt = rng.choice([(1024.0, 2.0 ** -7), (-2048.0, 2.0 ** -6), (64.0, 2.0 ** -11), (4096.0, 2.0 ** -5),
+                             (1048576.0, 2.0 ** -4), (-524288.0, 2.0 ** -5)])  # up to |t|/dt = 1.7e7
         nsteps = rng.choice([10, 20, 30])
         cnt["far_time_axis"] = 1
     cnt["negative_times"] = int(t0 < 0)
